@@ -20,6 +20,7 @@ import numpy as np
 import torch
 
 EPS = float(torch.finfo(torch.float64).eps)
+EPS32 = float(torch.finfo(torch.float32).eps)
 CAP = 2 ** 30
 
 
@@ -174,12 +175,169 @@ def run_zero(scn: dict) -> dict:
     return res
 
 
+# ---------------------------------------------------------------------------------- wide family
+WIDE_EXPS = {"quick": [0], "thorough": [-13, 0, 40]}
+
+
+def widened(J, den: int, k: int, e: int, dt) -> torch.Tensor:
+    """Widen(J, 4^k) 2^(e-k) / den of spec/Impartial.tla: every column repeated 4^k times (exact)."""
+    x = torch.tensor(J, dtype=dt) / den
+    x = torch.ldexp(x, torch.tensor(e - k))
+    return x.repeat_interleave(4 ** k, dim=1).contiguous()
+
+
+def compare_wide(out: torch.Tensor, want: list[Fraction], rep: int, shift: int, tol: float) -> dict:
+    """``out`` (n = len(want) rep entries) 2^-shift against the widened exact value: every entry of the
+    j-th block of ``rep`` columns must be want[j] (residual + rationalised equality on the extremes)."""
+    o = torch.ldexp(out.double(), torch.tensor(-shift)).view(len(want), rep)
+    if not bool(torch.isfinite(o).all()):
+        return {"why": "not finite", "got": "non-finite entries"}
+    mx, mn = o.max(dim=1).values.tolist(), o.min(dim=1).values.tolist()
+    worst = 0.0
+    for j, q in enumerate(want):
+        for x in (mx[j], mn[j]):
+            r = abs(x - float(q))
+            worst = max(worst, r / tol)
+            if r > tol:
+                return {"why": f"block {j} of {rep} equal columns: |{x!r} - {q}| = {r:.3e} > allowance {tol:.3e}",
+                        "got": {"block_max": mx, "block_min": mn}}
+            if q.denominator <= 10_000 and tol < 1e-9 and Fraction(x).limit_denominator(10_000) != q:
+                return {"why": f"block {j}: {x!r} does not rationalise to {q}", "got": {"block_max": mx, "block_min": mn}}
+    return {"ok": worst, "blocks": o}
+
+
+def _pdot(a: np.ndarray, b: np.ndarray) -> float:
+    """Inner product of two (blocks x rep) arrays with numpy's pairwise summation along the contiguous axis
+    (error O(log n) eps instead of the O(n) eps of a running sum): the harness's own n-term reductions on
+    wide outputs must stay far below the allowance."""
+    return float((a * b).sum(axis=-1).sum())
+
+
+def _dtypes(scn: dict, res: dict):
+    yield torch.float64, EPS, "float64"
+    if scn["exact32"]:
+        yield torch.float32, EPS32, "float32"
+    else:
+        res["skipped"].append("wide:float32_reductions_not_provably_exact")
+
+
+def run_wide_aligned(scn: dict, exps: list[int]) -> dict:
+    _, _, AlignedMTL = _aggs()
+    base, k, rep, m = scn["base"], scn["k"], scn["rep"], scn["m"]
+    res = {"fails": [], "evals": 0, "worst": 0.0, "skipped": []}
+    cases = base["cases"]
+    sg, kb = cases[0]["sigma"], cases[0]["kb"]
+    for dt, eps, dname in _dtypes(scn, res):
+        for e in exps:
+            X = widened(cases[0]["Jnum"], cases[0]["Jden"], k, e, dt)
+            rows: dict = {}
+            for case in cases:
+                u, uden = case["u"], case["uden"]
+                want = [frac(q) for q in case["A"]]
+                w1 = sum(abs(x) for x in u) / uden
+                tol = 64 * eps * kb * w1 * sg
+                variants = [("pref", lambda: AlignedMTL(pref_vector=torch.tensor(u, dtype=dt) / uden))]
+                if uden == m and all(x == 1 for x in u):
+                    variants.append(("default", lambda: AlignedMTL()))
+                for vname, mk in variants:
+                    out = mk()(X)
+                    res["evals"] += 1
+                    c = compare_wide(out, want, rep, e - k, tol)
+                    if "ok" in c:
+                        res["worst"] = max(res["worst"], c["ok"])
+                        if sum(u) == 1 and uden == 1:
+                            rows[u.index(1)] = c["blocks"].numpy()
+                    else:
+                        res["fails"].append({"agg": f"AlignedMTL({vname} u={u}/{uden} {dname})", "e": e,
+                                             "what": "value", "want": [str(q) for q in want], **c})
+            if len(rows) == m:      # (B J)(B J)^T = sigma^2 I on the wide rows (rescaled by 2^k: divide by 4^k)
+                RRt = np.array([[_pdot(rows[i], rows[l]) / rep for l in range(m)] for i in range(m)])
+                dev = np.abs(RRt - sg * sg * np.eye(m)).max()
+                if dev > 2 * 64 * eps * kb * sg * sg:
+                    res["fails"].append({"agg": f"AlignedMTL(one-hot {dname})", "e": e,
+                                         "what": "re-balanced rows not orthogonal of length sigma_min",
+                                         "got": RRt.tolist(), "why": f"max deviation {dev:.3e}"})
+    return res
+
+
+def run_wide_pyth(scn: dict, exps: list[int]) -> dict:
+    IMTLG, ConFIG, _ = _aggs()
+    base, k, rep, m = scn["base"], scn["k"], scn["rep"], scn["m"]
+    J, nb = base["J"], base["n"]
+    res = {"fails": [], "evals": 0, "worst": 0.0, "skipped": []}
+    colabs = [sum(abs(J[i][j]) for i in range(m)) for j in range(nb)]
+    dsum = float(sum(base["d"]))
+    im = base["imtlg"]
+    if not base["admit"]:
+        res["skipped"].append("imtlg:ill_conditioned")
+    elif not im["defined"]:
+        res["skipped"].append("imtlg:sum_of_unnormalised_weights_is_zero")
+    else:
+        w1 = float(frac(im["w1"]))
+        W = max(1.0, w1 * (1 + w1))
+        wantA, wantw = [frac(q) for q in im["A"]], [frac(q) for q in im["w"]]
+        for dt, eps, dname in _dtypes(scn, res):
+            tolw = 64 * eps * base["kb"] * W
+            for e in exps:
+                X = widened(J, 1, k, e, dt)
+                A = IMTLG()
+                out = A(X)
+                w = A.weighting(X).double().tolist()
+                res["evals"] += 1
+                cs = (("weights", compare(w, wantw, tolw), wantw),
+                      ("value", compare_wide(out, wantA, rep, e - k, tolw * max(colabs)), wantA))
+                for what, c, want in cs:
+                    if "ok" in c:
+                        res["worst"] = max(res["worst"], c["ok"])
+                    else:
+                        c.pop("blocks", None)
+                        res["fails"].append({"agg": f"IMTLG({dname})", "e": e, "what": what,
+                                             "want": [str(q) for q in want], **c})
+                if abs(sum(w) - 1.0) > tolw:
+                    res["fails"].append({"agg": f"IMTLG({dname})", "e": e, "what": "weights do not sum to one",
+                                         "got": w, "why": f"sum = {sum(w)!r}"})
+    if not base["admitU"]:
+        res["skipped"].append("config:ill_conditioned")
+    else:
+        # ConFIG takes the pseudo-inverse of the m x n matrix of unit rows (not exactly representable): its
+        # n-term reductions are not exact, so the allowance carries the worst-case factor n of a sum of n
+        # terms in any order; in float32 that allowance is vacuous (n eps32 > 1/16): float64 only.
+        res["skipped"].append("wide:config_float32_allowance_vacuous")
+        tol = 64 * EPS * base["kbu"] * dsum * scn["n"]
+        for case in base["config"]:
+            u = case["u"]
+            want = [frac(q) for q in case["A"]]
+            variants = [("pref", lambda: ConFIG(pref_vector=torch.tensor(u, dtype=torch.float64)))]
+            if all(x == 1 for x in u):
+                variants.append(("default", lambda: ConFIG()))
+            for vname, mk in variants:
+                for e in exps:
+                    X = widened(J, 1, k, e, torch.float64)
+                    out = mk()(X)
+                    res["evals"] += 1
+                    c = compare_wide(out, want, rep, e - k, tol)
+                    if "ok" in c:
+                        res["worst"] = max(res["worst"], c["ok"])
+                        if all(x > 0 for x in u):
+                            o = c["blocks"].mean(dim=1).numpy()
+                            cos = (np.array(J, dtype=float) @ o) / (np.array(base["d"], dtype=float) * np.linalg.norm(o))
+                            if not np.all(cos > 0):
+                                res["fails"].append({"agg": f"ConFIG({vname} u={u} float64)", "e": e,
+                                                     "what": "cosine not positive", "got": cos.tolist(), "why": "cos <= 0"})
+                    else:
+                        res["fails"].append({"agg": f"ConFIG({vname} u={u} float64)", "e": e, "what": "value",
+                                             "want": [str(q) for q in want], **c})
+    return res
+
+
 def run_scenario(item) -> dict:
     scn, exps = item
     if scn["fam"] == "pyth":
         return run_pyth(scn, exps)
     if scn["fam"] == "aligned":
         return run_aligned(scn, exps)
+    if scn["fam"] == "wide":
+        return run_wide_aligned(scn, exps) if scn["kind"] == "aligned" else run_wide_pyth(scn, exps)
     return run_zero(scn)
 
 
@@ -192,11 +350,15 @@ def _units(x: float) -> int:
 
 def random_episode(item) -> dict:
     """Defining equalities of C17 evaluated in float64 on a random integer matrix; residuals in
-    integer units of eps x (natural scale).  TLC decides whether the instance is admissible."""
-    ep, seed = item
+    integer units of eps x (natural scale).  TLC decides whether the instance is admissible.
+    item = (ep, seed) or (ep, seed, k): with k > 0 the aggregators are run on the WIDE presentation
+    Widen(J, 4^k) 2^(e-k) of the drawn matrix (same Gramian, spec/Impartial.tla family "wide"); all
+    reductions of the harness over the n = cols 4^k entries use pairwise summation of block sums."""
+    ep, seed = item[0], item[1]
+    k = item[2] if len(item) > 2 else 0
     IMTLG, ConFIG, AlignedMTL = _aggs()
     rng = random.Random(seed * 1_000_003 + ep)
-    m = rng.choice([1, 2, 2, 3, 3, 3])
+    m = rng.choice([1, 2, 2, 3, 3, 3]) if k == 0 else rng.choice([2, 2, 3, 3, 3])
     n = rng.randint(m, 5)
     J = [[rng.randint(-3, 3) for _ in range(n)] for _ in range(m)]
     if m >= 2 and rng.random() < 0.3:          # one short row among long ones (weights of mixed sign)
@@ -207,12 +369,24 @@ def random_episode(item) -> dict:
     default = all(x == 1 for x in u) and rng.random() < 0.5
     obs = {"sum_units": 0, "proj_units": 0, "cos_units": 0, "len_units": 0, "pos": True, "orth_units": 0,
            "comb_units": 0, "finite": True}
-    X = scaled(J, e)
-    Xn = X.numpy()
+    rec = {"ep": ep, "agg": agg, "J": J, "u": u, "e": e, "k": k, "default": default, "obs": obs}
+    rep = 4 ** k
+    Xs = scaled(J, e)                          # the narrow matrix: same Gramian, norms, sigma_min as the wide one
+    X = Xs if k == 0 else widened(J, 1, k, e, torch.float64)
+    Xn = Xs.numpy()
     norms = np.linalg.norm(Xn, axis=1)
     ut = torch.tensor(u, dtype=torch.float64)
     if min(norms) == 0:                       # a zero row: not full row rank, TLC will skip it
-        return {"ep": ep, "agg": agg, "J": J, "u": u, "e": e, "default": default, "obs": obs}
+        return rec
+
+    def xdot(v: np.ndarray) -> np.ndarray:     # X @ v
+        if k == 0:
+            return Xn @ v
+        return np.ldexp(Xn @ v.reshape(n, rep).sum(axis=1), -k)
+
+    def vnorm(v: np.ndarray) -> float:
+        return float(np.linalg.norm(v)) if k == 0 else math.sqrt(_pdot(v.reshape(n, rep), v.reshape(n, rep)))
+
     if agg == "IMTLG":
         A = IMTLG()
         out, w = A(X).numpy(), A.weighting(X).numpy()
@@ -221,30 +395,36 @@ def random_episode(item) -> dict:
             w1 = np.abs(w).sum()
             W = max(1.0, w1 * (1 + w1))
             obs["sum_units"] = _units(abs(w.sum() - 1.0) / (EPS * W))
-            p = (Xn @ out) / norms
+            p = xdot(out) / norms
             trG = float((Xn * Xn).sum())
             obs["proj_units"] = _units((p.max() - p.min()) / (EPS * W * trG / norms.min()))
     elif agg == "ConFIG":
         A = ConFIG() if default else ConFIG(pref_vector=ut)
         out = A(X).numpy()
         obs["finite"] = bool(np.isfinite(out).all())
-        no = np.linalg.norm(out)
+        no = vnorm(out) if obs["finite"] else 0.0
         if obs["finite"] and no > 0:
-            cos = (Xn @ out) / (norms * no)
+            cos = xdot(out) / (norms * no)
             rho = cos / np.array(u, dtype=float)
             obs["cos_units"] = _units((rho.max() - rho.min()) * min(u) / EPS)
             obs["pos"] = bool((cos > 0).all())
-            obs["len_units"] = _units(abs(no - (Xn @ out).sum() / no) / (EPS * norms.sum()))
+            obs["len_units"] = _units(abs(no - xdot(out).sum() / no) / (EPS * norms.sum()))
         elif obs["finite"]:
             obs["pos"] = False                  # zero vector for a full-rank matrix
     else:
         sig = float(np.linalg.svd(Xn, compute_uv=False).min())
-        R = np.array([AlignedMTL(pref_vector=torch.eye(m, dtype=torch.float64)[k])(X).numpy() for k in range(m)])
+        R = np.array([AlignedMTL(pref_vector=torch.eye(m, dtype=torch.float64)[i])(X).numpy() for i in range(m)])
         A = AlignedMTL() if default else AlignedMTL(pref_vector=ut)
         wv = np.full(m, 1.0 / m) if default else np.array(u, dtype=float)
         out = A(X).numpy()
         obs["finite"] = bool(np.isfinite(out).all() and np.isfinite(R).all())
         if obs["finite"] and sig > 0:
-            obs["orth_units"] = _units(np.abs(R @ R.T - sig * sig * np.eye(m)).max() / (EPS * sig * sig))
-            obs["comb_units"] = _units(np.abs(out - wv @ R).max() / (EPS * np.abs(wv).sum() * sig))
-    return {"ep": ep, "agg": agg, "J": J, "u": u, "e": e, "default": default, "obs": obs}
+            if k == 0:
+                RRt = R @ R.T
+            else:
+                Rb = R.reshape(m, n, rep)
+                RRt = np.array([[_pdot(Rb[i], Rb[l]) for l in range(m)] for i in range(m)])
+            obs["orth_units"] = _units(np.abs(RRt - sig * sig * np.eye(m)).max() / (EPS * sig * sig))
+            # entries of the re-balanced rows are of the order sigma_min 2^-k
+            obs["comb_units"] = _units(np.abs(out - wv @ R).max() * 2.0 ** k / (EPS * np.abs(wv).sum() * sig))
+    return rec
